@@ -5,6 +5,7 @@
 package exec
 
 import (
+	"testing"
 	"bytes"
 	"context"
 	"encoding/hex"
@@ -778,4 +779,8 @@ func (e *env) checkHistoryC04() {
 		}
 	}
 	_ = chain.MaxAnchorCount
+}
+
+func init() {
+	simkit.Register("exec", func(scratch string, t *testing.T) simkit.World { return &World{Scratch: scratch} })
 }
